@@ -31,11 +31,13 @@ def extra_configs(tier, add):
     def cfg(label, gen, g, n, tl, steps, cr=1.0, tr=-0.03, batch=None):
         mk = lambda t, gen=gen, g=g, n=n, cr=cr, tr=tr: E.Connector(
             generator=getattr(G, gen)(grid_size=g, num_agents=n), reward_fn=DenseRewardFn(cr, tr), time_limit=t)
-        add(label, (lambda mk=mk, tl=tl: mk(tl)), steps, batch=batch, time_limit=tl, mk=mk, gen=gen)
+        add(label, (lambda mk=mk, tl=tl: mk(tl)), steps, batch=batch, time_limit=tl, mk=mk, gen=gen, cr=cr, tr=tr)
 
     cfg("g5a3walk-t9-dyadic", "RandomWalkGenerator", 5, 3, 9, 12, cr=2.0, tr=-0.25)
     cfg("g4a2uni-t6-dyadic", "UniformRandomGenerator", 4, 2, 6, 8, cr=1.0, tr=-0.5)
     cfg("g2a1uni-t2", "UniformRandomGenerator", 2, 1, 2, 4)
+    cfg("g4a2uni-t5-zero-step", "UniformRandomGenerator", 4, 2, 5, 7, cr=1.0, tr=0.0)     # explicit ZERO constants must be honoured
+    cfg("g4a2walk-t5-zero-conn", "RandomWalkGenerator", 4, 2, 5, 7, cr=0.0, tr=-1.0)
     cfg("g3a2walk-t4", "RandomWalkGenerator", 3, 2, 4, 6)
     if tier != "quick":
         cfg("g7a5uni-t5", "UniformRandomGenerator", 7, 5, 5, 7, cr=4.0, tr=0.0)
@@ -55,9 +57,15 @@ def code100(r):
     return k if abs(v - k) < 1e-3 else 10 ** 9
 
 
+def asked_rewards(env):
+    """(connected_reward, timestep_reward) the CONFIGURATION asked for (recorded by analyze from the catalog tags; the
+    documented defaults 1.0 / -0.03 for the shared catalog), not what the reward function object stored"""
+    return getattr(env, "_verif_rewards", (1.0, -0.03))
+
+
 def enc_cfg(env):
-    rf = env._reward_fn
-    return [int(env.grid_size), int(env.num_agents), int(env.time_limit), code100(rf.connected_reward), code100(rf.timestep_reward)]
+    cr, tr = asked_rewards(env)
+    return [int(env.grid_size), int(env.num_agents), int(env.time_limit), code100(cr), code100(tr)]
 
 
 def enc_agents(a):
@@ -273,6 +281,7 @@ def analyze(kit):
 
     for cfg in kit.configs():
         env = kit.env(cfg)
+        env._verif_rewards = (float(cfg["tags"].get("cr", 1.0)), float(cfg["tags"].get("tr", -0.03)))
         G, N, T = int(env.grid_size), int(env.num_agents), int(env.time_limit)
         ec = enc_cfg(env)
         lay = layout_of(G, N)
@@ -280,7 +289,12 @@ def analyze(kit):
         gen = env._generator
         is_walk = type(gen).__name__ == "RandomWalkGenerator"
         is_uni = type(gen).__name__ == "UniformRandomGenerator"
-        crew, trew = float(env._reward_fn.connected_reward), float(env._reward_fn.timestep_reward)
+        crew, trew = env._verif_rewards
+        kit.res["C08"].evaluations += 1
+        stored = (float(env._reward_fn.connected_reward), float(env._reward_fn.timestep_reward))
+        if not np.allclose(stored, env._verif_rewards, atol=1e-9):
+            kit.fail(["C08"], "Connector reward function does not use the constants it was constructed with", dict(cfg=label, op="reward-wiring"),
+                     dict(asked=env._verif_rewards, stored=stored))
         maskf = jax.jit(jax.vmap(env._get_action_mask, (0, None)))
         visited = []
         bad_instance = set()
